@@ -39,7 +39,7 @@ def COST(desc):
 
 
 FAMILIES_Q = [("elec", (1, 2, 3)), ("two", (2, 3)), ("spin", (2,)), ("eph", (3,))]
-FAMILIES_T = [("elec", (1, 2, 3, 4)), ("two", (1, 2, 3, 4)), ("spin", (1, 2, 3)), ("eph", (2, 3, 4)), ("mixed", (3,))]
+FAMILIES_T = [("elec", (1, 2, 3, 4)), ("two", (1, 2, 3)), ("spin", (1, 2, 3)), ("eph", (2, 3)), ("mixed", (3,))]      # (n = 4 for the two-component and eph families: over an hour)
 
 
 def BOUND(tier):
